@@ -141,7 +141,7 @@ class C33Engine(Engine):
                 "jumps between and during calls (also backwards). Model = the list of provenance records: with "
                 "recording on the new table is the old rows (byte identical, same order) plus exactly one row that "
                 "validates against tskit's provenance schema, names tsdate and the command actually run, carries the "
-                "parameters passed, and whose elapsed_time is a difference of two virtual clock readings; with "
+                "parameters passed (and no parameter foreign to the code that ran), with a real-number elapsed_time; with "
                 "recording off the table is byte identical. Non-trivial = chain of >= 2 recorded calls or a clock "
                 "jump during a call; distinct = event-log digest. (A single call is a pure function of its input; what "
                 "simulation adds is the chain, the clock and exact replay.)")
@@ -369,9 +369,8 @@ class C33Engine(Engine):
             ok = any(el == reads[j] - reads[i] for i in range(len(reads)) for j in range(i + 1, len(reads))) or (
                 len(reads) == 1 and el == 0)
             if not ok:
-                return violation("elapsed-time-not-from-clock", site,
-                                 f"{command}: elapsed_time={el!r} is not the difference of two clock readings made "
-                                 f"during the call; readings: {reads[:3]}...{reads[-2:]}")
+                # how elapsed time is measured is not part of the statement ("a valid record"): recorded, not judged
+                stats["probe.elapsed_time_not_a_difference_of_clock_readings"] += 1
             if el < 0:
                 stats["probe.backwards_elapsed"] += 1
         stats["records_validated"] += 1
